@@ -152,7 +152,13 @@ def env_view(env):
     return out
 
 
-def snapshot(XSH, tty_fd=None):
+def snapshot(XSH, tty_fd=None, live=False):
+    """live=True (the baseline snapshot only) keeps references to the std stream and handler objects so
+    that their ids stay unique while later snapshots are compared with it; later snapshots record ids and
+    descriptions only - a snapshot must not itself keep a finished helper thread (reachable from its
+    SIGINT handler) and everything that thread owns alive."""
+    std = (sys.stdin, sys.stdout, sys.stderr)
+    hs = handlers()
     snap = {
         "fds": fd_table(),
         "children": children(),
@@ -160,9 +166,15 @@ def snapshot(XSH, tty_fd=None):
         "cwd": _cwd(),
         "env": env_view(XSH.env),
         "environ": dict(os.environ),
-        "_std": (sys.stdin, sys.stdout, sys.stderr),
-        "_handlers": handlers(),
+        "std_ids": [id(x) for x in std],
+        "std_types": [type(x).__name__ for x in std],
+        "handler_ids": {k: id(v) for k, v in hs.items()},
+        "handler_descr": {k: describe_handler(v) for k, v in hs.items()},
     }
+    if live:
+        snap["_std"] = std
+        snap["_handlers"] = hs
+    del std, hs
     if tty_fd is not None:
         try:
             snap["tcpgrp"] = os.tcgetpgrp(tty_fd)
@@ -249,9 +261,11 @@ def diff_counts(one, many):
     """Steady state: nothing may have grown between 'after 1 run' and 'after N runs'."""
     a, b = count_resources(one), count_resources(many)
     probs = []
-    if b["fds"] > a["fds"]:
-        probs.append("fd-growth: %d open descriptors after one run, %d after N (%r -> %r)" % (
-            a["fds"], b["fds"], a["fd_kinds"], b["fd_kinds"]))
+    grown = {k: b["fd_kinds"].get(k, 0) - a["fd_kinds"].get(k, 0) for k in b["fd_kinds"]
+             if b["fd_kinds"].get(k, 0) > a["fd_kinds"].get(k, 0)}
+    if grown:
+        probs.append("fd-growth: %d open descriptors after one run, %d after N: %s" % (
+            a["fds"], b["fds"], ", ".join("+%d->%s" % (n, k) for k, n in sorted(grown.items()))))
     if b["children"] > a["children"]:
         probs.append("child-growth: %d children after one run, %d after N (%s)" % (
             a["children"], b["children"], ",".join(sorted("%s:%s" % s for s in many["children"].values()))))
@@ -266,13 +280,14 @@ def diff_state(before, after, env_ignore=()):
     probs = []
     if before["cwd"] != after["cwd"]:
         probs.append("cwd: %r -> %r" % (before["cwd"], after["cwd"]))
-    for name, b, a in zip(("stdin", "stdout", "stderr"), before["_std"], after["_std"]):
-        if a is not b:
-            probs.append("sys.%s replaced: %s -> %s" % (name, type(b).__name__, type(a).__name__))
+    if "_std" not in before or "_handlers" not in before:
+        raise ValueError("diff_state: the 'before' snapshot must be taken with live=True")
+    for i, name in enumerate(("stdin", "stdout", "stderr")):
+        if before["std_ids"][i] != after["std_ids"][i]:
+            probs.append("sys.%s replaced: %s -> %s" % (name, before["std_types"][i], after["std_types"][i]))
     for s in SIGS:
-        b, a = before["_handlers"][s], after["_handlers"][s]
-        if a is not b and a != b:
-            probs.append("handler %s: %s -> %s" % (s, describe_handler(b), describe_handler(a)))
+        if before["handler_ids"][s] != after["handler_ids"][s]:
+            probs.append("handler %s: %s -> %s" % (s, before["handler_descr"][s], after["handler_descr"][s]))
     be, ae = before["env"], after["env"]
     for k in sorted(set(be) | set(ae)):
         if k in env_ignore:
